@@ -191,6 +191,55 @@ func init() {
 	}, "internal/bytealg.MakeNoZero")
 	reg(func(t *Task, fn *ssa.Function, args []Value) Value { return args[0] },
 		"internal/stringslite.Clone", "strings.Clone", "bytes.Clone")
+	// strings.IndexAny / IndexRune with a constant ASCII character set: byte-level
+	// matching is exact (no byte of a multi-byte UTF-8 sequence is ASCII), so the
+	// result is a term over the subject's bytes instead of a rune-by-rune fork.
+	// Other argument shapes fall through to the real code.
+	indexAny := func(t *Task, fn *ssa.Function, args []Value) Value {
+		p := t.p
+		c := p.C
+		var arr *Obj
+		var off int
+		var ln *Term
+		switch s := args[0].(type) {
+		case SliceVal:
+			arr, off, ln = s.Arr, s.Off, s.Len
+		case StrVal:
+			arr, off, ln = s.Arr, s.Off, s.Len
+		}
+		var chars string
+		ok := false
+		switch x := args[1].(type) {
+		case StrVal:
+			chars, ok = p.concreteString(x)
+		case *Term:
+			if x.IsConst() && x.Val < 0x80 {
+				chars, ok = string(rune(x.Val)), true
+			}
+		}
+		if ok {
+			for i := 0; i < len(chars); i++ {
+				if chars[i] >= 0x80 {
+					ok = false
+				}
+			}
+		}
+		if !ok {
+			return t.callBody(fn, args, nil)
+		}
+		n := p.ConcInt(ln, "length in IndexAny")
+		res := c.Const(64, ^uint64(0))
+		for i := n - 1; i >= 0; i-- {
+			b := arr.Slots[off+i].(*Term)
+			m := c.False
+			for j := 0; j < len(chars); j++ {
+				m = c.Or(m, c.Eq(b, c.Const(8, uint64(chars[j]))))
+			}
+			res = c.Ite(m, c.Const(64, uint64(i)), res)
+		}
+		return res
+	}
+	reg(indexAny, "strings.IndexAny", "strings.IndexRune", "bytes.IndexAny", "bytes.IndexRune")
 
 	// ---- strings.Builder ---------------------------------------------------
 	builderBuf := func(t *Task, recv Value) (*Obj, int) {
